@@ -83,6 +83,9 @@ func init() {
 			a.c01Primitives()
 			a.c01Provenance()
 			a.cipherBuffers("K.cipher-buffers")
+			a.liveSessionUntouched("W.live-keys")
+			a.c11SSID("W.ssid")
+			a.sentRevealSigWriters("W.highlight")
 			// what a public key is reported as (fingerprint) and whether a signature verifies under it depend on the
 			// key alone: nothing on those paths writes memory shared between keys or conversations (a cache, say)
 			pure := map[*ssa.Function]bool{}
@@ -411,6 +414,7 @@ func (a *An) c01Provenance() {
 			R.Check(strings.HasPrefix(a.C.Term(c.Call.Args[1]), "(*Conversation).randSecret("), rule, name+"|exponent-source", "the exponent is the drawn value", a.C.InstrPos(c), "exponent is "+a.C.Term(c.Call.Args[1]))
 		}
 	}
+	a.freshExponentWriters("W.exponent")
 	// reported values
 	if fn := a.MustFn("(*Conversation).GetTheirKey"); fn != nil {
 		for _, r := range a.returnsOf(fn) {
@@ -468,4 +472,69 @@ func (a *An) theirDHWriters() {
 		}
 		R.Floor("W.their-dh", 3)
 	}
+}
+
+// liveSessionUntouched: a key exchange in progress works on its own key context (c.ake.keys); the keys, key ids and
+// counters of the running session (c.keys) are replaced only when the exchange has been verified (akeHasFinished). No
+// other function on the key-exchange path writes or wipes them.
+func (a *An) liveSessionUntouched(rule string) {
+	R := a.R
+	done := map[*ssa.Function]bool{}
+	// akeHasFinished installs the verified exchange; maybeRetransmit sends the queued texts in the session just set up
+	for _, f := range a.reachableFns("(*Conversation).akeHasFinished", "(*Conversation).maybeRetransmit") {
+		done[f] = true
+	}
+	n := 0
+	for _, f := range a.reachableFns("(*Conversation).processAKE") {
+		if done[f] || f.Blocks == nil {
+			continue
+		}
+		n++
+		bad := ""
+		var at ssa.Instruction
+		for _, b := range f.Blocks {
+			for _, in := range b.Instrs {
+				// calls that lead into akeHasFinished are judged there
+				if call, ok := in.(ssa.CallInstruction); ok {
+					leads := false
+					for _, g := range a.C.Callees(call) {
+						g = a.C.unwrap(g)
+						if done[g] || (a.C.IsLib(g) && (a.reaches(g, "(*Conversation).akeHasFinished") || a.reaches(g, "(*Conversation).maybeRetransmit"))) {
+							leads = true
+						}
+					}
+					if leads {
+						continue
+					}
+				}
+				for _, ef := range a.E.InstrEffectsAll(in) {
+					p := a.C.abs(f, ef.Path)
+					if p == "Conversation.keys" || strings.HasPrefix(p, "Conversation.keys.") {
+						bad, at = p, in
+					}
+				}
+			}
+		}
+		if bad != "" {
+			R.Viol(rule, "write|"+a.C.Name(a.C.owner(f)), "the running session's key context is not touched while an exchange is in progress", a.C.InstrPos(at),
+				a.C.Name(f)+" writes "+bad+" before the exchange is verified: an unauthenticated key exchange message can destroy the keys of the established session")
+		}
+	}
+	R.Check(n >= 20, rule, "functions", "functions on the key exchange path examined", "", fmt.Sprintf("%d", n))
+}
+
+// sentRevealSigWriters: which half of the session id is highlighted follows from the role taken in the exchange that
+// produced the session: the flag is written where that role is taken and nowhere else.
+func (a *An) sentRevealSigWriters(rule string) {
+	a.WhoMayWriteDirect(rule, a.MustField("Conversation", "sentRevealSig"), sentRevealSigWriterFns...)
+}
+
+var sentRevealSigWriterFns = []string{"(authStateAwaitingDHKey).receiveDHKeyMessage", "(authStateAwaitingRevealSig).receiveRevealSigMessage"}
+
+// freshExponentWriters: the secret exponent of an exchange is set by the two message builders (from their own draw,
+// see V.ake-binding) and by nothing else, so no exchange runs on an exponent of an earlier one.
+func (a *An) freshExponentWriters(rule string) {
+	a.WhoMayCall(rule, a.MustFn("(*Conversation).setSecretExponent"), "(*Conversation).dhCommitMessage", "(*Conversation).dhKeyMessage")
+	a.WhoMayWriteDirect(rule, a.MustField("ake", "secretExponent"), "(*Conversation).setSecretExponent", "(*ake).wipe")
+	a.WhoMayWriteDirect(rule, a.MustField("ake", "ourPublicValue"), "(*Conversation).setSecretExponent", "(*ake).wipe")
 }
